@@ -143,6 +143,23 @@ func c07Shape3(r *Rng, lat *lattice3, bb sdf.Box3, family int) (func(p v3.Vec) f
 			d := p.Sub(bc).Abs().Sub(half)
 			return d.Max(v3.Vec{}).Length() + math.Min(d.MaxComponent(), 0)
 		}, "thin-plate", fmt.Sprintf("plate half=%v in a level-%d cube, centre %v", half, L, bc)
+	case 6: // a sphere outside a coarse cube that clips one of its corners by a tiny fraction of the half diagonal: the centre
+		// value is just below the radius at which the cube may be skipped
+		o, side, L := pickCube()
+		ctr := o.AddScalar(side / 2)
+		bc := bb.Center()
+		sg := func(a, b float64) float64 {
+			if b >= a {
+				return 1
+			}
+			return -1
+		}
+		dir := v3.Vec{X: sg(ctr.X, bc.X), Y: sg(ctr.Y, bc.Y), Z: sg(ctr.Z, bc.Z)}.Normalize() // the corner towards the middle of the box
+		hd := 0.5 * math.Sqrt(3) * side
+		eps := pickOne(r, []float64{1e-9, 1e-7, 1e-6, 3e-6, 1e-5, 2e-5, 1e-4, 1e-3, 1e-2})
+		rad := cell * r.R(2, 8)
+		sc := ctr.Add(dir.MulScalar(hd*(1-eps) + rad))
+		return sphereAt(sc, rad), "corner-clip", fmt.Sprintf("sphere r=%.4g outside a level-%d cube (side %.4g), clipping its corner by %.0e of the half diagonal, centre %v", rad, L, side, eps, sc)
 	case 4: // far-apart small features
 		k := r.IR(2, 5)
 		var cs []v3.Vec
@@ -228,7 +245,33 @@ func c07Run3(c *Ctx, i int, depths map[string]bool) {
 		c.Inconclusive("learn3: " + err.Error())
 		return
 	}
-	fn, family, desc := c07Shape3(r, lat, bb, i%6)
+	fn, family, desc := c07Shape3(r, lat, bb, i%7)
+	if i%11 == 5 && lat.stride == 2 {
+		// a field that is undefined (NaN) exactly at centres of finest cubes - the points the octree tests for emptiness but
+		// no cell corner ever reads (e.g. a zero-radius blend on a mirror plane gives 0/0 there). An undefined centre value
+		// is no evidence that a cube is empty.
+		odd := func(coords []float64) map[float64]bool {
+			m := map[float64]bool{}
+			for j := 1; j < len(coords); j += 2 {
+				m[coords[j]] = true
+			}
+			return m
+		}
+		ox, oy, oz := odd(lat.xs), odd(lat.ys), odd(lat.zs)
+		base := fn
+		sel := r.I(3)
+		fn = func(p v3.Vec) float64 {
+			hit := ox[p.X] && oy[p.Y] && oz[p.Z]
+			if sel == 1 {
+				hit = ox[p.X] // a whole plane of centres
+			}
+			if hit {
+				return math.NaN()
+			}
+			return base(p)
+		}
+		family += "+nan-at-cell-centres"
+	}
 	cs := c07Case{Index: i, Dim: 3, Cells: cells, Family: family, Shape: desc}
 	// pruned render
 	var nP, nU, affected3 int64
@@ -500,7 +543,24 @@ func c07Run2(c *Ctx, i int, depths map[string]bool) {
 	}
 	var fn func(p v2.Vec) float64
 	var family, desc string
-	switch i % 5 {
+	switch i % 6 {
+	case 5: // a circle outside a coarse square that clips one of its corners by a tiny fraction of the half diagonal
+		cc := o.AddScalar(side / 2)
+		bc := bb.Center()
+		dir := v2.Vec{X: 1, Y: 1}
+		if bc.X < cc.X {
+			dir.X = -1
+		}
+		if bc.Y < cc.Y {
+			dir.Y = -1
+		}
+		dir = dir.Normalize()
+		hd := 0.5 * math.Sqrt2 * side
+		eps := pickOne(r, []float64{1e-9, 1e-7, 1e-6, 3e-6, 1e-5, 2e-5, 1e-4, 1e-3, 1e-2})
+		rad := cell * r.R(2, 8)
+		sc := cc.Add(dir.MulScalar(hd*(1-eps) + rad))
+		fn = func(p v2.Vec) float64 { return p.Sub(sc).Length() - rad }
+		family, desc = "corner-clip", fmt.Sprintf("circle r=%.4g outside a level-%d square (side %.4g), clipping its corner by %.0e of the half diagonal, centre %v", rad, L, side, eps, sc)
 	case 0:
 		rad := cell * r.R(1.2, 2.5)
 		corner := o.Add(v2.Vec{X: float64(r.I(2)) * side, Y: float64(r.I(2)) * side})
